@@ -41,4 +41,10 @@ def _one(prefix, n, snaps=2, faults=1, imm=0, env=1, tier="quick", timeout=600):
 
 
 def compaction_obls(prefix):
-    return [_one(prefix, 2)]
+    out = []
+    for n in (1, 2, 3, 4):
+        for faults in (0, 1):
+            for env in (0, 1):
+                out.append(_one(prefix, n, faults=faults, env=env))
+    out.append(_one(prefix, 2, imm=1))
+    return out
